@@ -13,18 +13,14 @@ Open Scope N_scope.
 Record debian := { db_epoch : option Z; db_upstream : bytes; db_revision : bytes }.
 
 (* weighDebianChar applied to one element of strings.Split(prefix, "") (one UTF-8 sequence or one
-   invalid byte): "~" -> 1, otherwise by the FIRST byte: letters keep their code, the rest +122 *)
-Definition deb_non_letter (z : Z) : bool :=
-  match gen_debian_letter_bounds with
-  | [b0; b1; b2; b3] => (z <? b0)%Z || ((b1 <? z)%Z && (z <? b2)%Z) || (b3 <? z)%Z
-  | _ => false
-  end.
+   invalid byte): the weight depends on the FIRST byte only ("~" is the single byte 126); the weights
+   are the generated table of ranks, obtained by probing the implementation with every byte
+   ('~' < end of run < letters < everything else) *)
 Definition deb_weight (chunk : bytes) : Z :=
-  if bytes_eqb chunk [126] then gen_debian_tilde_weight
-  else match chunk with
-       | [] => gen_debian_empty_weight
-       | c :: _ => let z := Z.of_N c in if deb_non_letter z then (z + gen_debian_non_letter_offset)%Z else z
-       end.
+  match chunk with
+  | [] => gen_debian_empty_weight
+  | c :: _ => nth (N.to_nat c) gen_debian_byte_weights 0%Z
+  end.
 
 Definition deb_weights (p : bytes) : list Z := map (fun r : bytes * N * bool => deb_weight (fst (fst r))) (runes p).
 
